@@ -610,23 +610,60 @@ func runErrflow(c *Ctx) {
 	// ---------------- E5: last-resort guard in the executor
 	{
 		var rv ssa.CallInstruction
-		for _, ci := range core.Calls(exec, core.RVCall) {
+		for _, ci := range p.RegionCalls(exec, core.RVCall) {
 			rv = ci
 		}
 		if rv == nil {
 			c.R.Undecided("ERRFLOW-E5", "executor|call", "executor", p.Pos(exec.Pos()), "no reflect.Value.Call in the executor")
 			return
 		}
-		lits := core.Lits(core.Guards(rv.Block()))
+		// what is known where the function is called — including, when the argument struct is built by a private step
+		// that returns an error, what that step's nil error implies inside it
+		lits := p.ExpandLitsKeep(p.ILits(rv.Block()))
 		var guardVal ssa.Value
 		for _, l := range lits {
 			if l.Kind == "cmp" && l.Op == token.EQL && l.Pol {
+				var cand ssa.Value
 				if core.IsNilConst(l.Y) && isErrorType(l.X.Type()) {
-					guardVal = l.X
+					cand = l.X
 				} else if core.IsNilConst(l.X) && isErrorType(l.Y.Type()) {
-					guardVal = l.Y
+					cand = l.Y
+				}
+				if cand == nil {
+					continue
+				}
+				// prefer the accumulated error itself (a phi over the argument loop) to a step's forwarded result
+				if _, isPhi := cand.(*ssa.Phi); isPhi || guardVal == nil {
+					guardVal = cand
 				}
 			}
+		}
+		// `structVal, err := f.inputStruct(argMap)` where the step returns its accumulated error as is: that error
+		for i := 0; i < 3 && guardVal != nil; i++ {
+			if _, isPhi := guardVal.(*ssa.Phi); isPhi {
+				break
+			}
+			var cl *ssa.Call
+			idx := 0
+			switch x := guardVal.(type) {
+			case *ssa.Call:
+				cl = x
+			case *ssa.Extract:
+				cl, _ = x.Tuple.(*ssa.Call)
+				idx = x.Index
+			}
+			if cl == nil {
+				break
+			}
+			h := cl.Common().StaticCallee()
+			if !p.PrivateHelper(h) {
+				break
+			}
+			rets := core.Returns(h)
+			if len(rets) != 1 || idx >= len(rets[0].Results) {
+				break
+			}
+			guardVal = rets[0].Results[idx]
 		}
 		c.R.Add("ERRFLOW-E5", "executor|call-behind-buildErr-nil", "executor", p.InstrPos(rv), guardVal != nil,
 			"the wrapped function is called only where the accumulated argument error is nil", ternary(guardVal != nil, "dominated by buildErr==nil", "no dominating nil check of an accumulated error"))
@@ -638,9 +675,9 @@ func runErrflow(c *Ctx) {
 				argMap = prm
 			}
 		}
-		core.Instrs(exec, func(in ssa.Instruction) {
+		p.RegionInstrs(exec, func(in ssa.Instruction) {
 			lk, ok := in.(*ssa.Lookup)
-			if !ok || !lk.CommaOk || lk.X != ssa.Value(argMap) {
+			if !ok || !lk.CommaOk || (lk.X != ssa.Value(argMap) && p.Bind(lk.X) != ssa.Value(argMap)) {
 				return
 			}
 			lookupFound = true
@@ -679,7 +716,7 @@ func runErrflow(c *Ctx) {
 			fmt.Sprintf("lookup-with-ok=%v miss-branch-sets-error=%v", lookupFound, missOK))
 		// every declared input is looked up: the loop ranges over the full value list of the input set
 		fullRange := false
-		core.Instrs(exec, func(in ssa.Instruction) {
+		p.RegionInstrs(exec, func(in ssa.Instruction) {
 			if ia, ok := in.(*ssa.IndexAddr); ok {
 				if fr, ok := core.AsFieldLoad(ia.X); ok && fr.Owner == "ValueSet" && fr.Field == "values" {
 					if b, ok := core.AsFieldLoad(fr.Base); ok && b.Owner == "Func" && b.Field == "input" {
